@@ -74,6 +74,8 @@ def shards(tier, seed):
         for first in 'Mm':
             for l1 in LETTERS:
                 out.append({'rot': rot, 'first': first, 'l1': l1})
+    out += [{'what': 'long_runs', 'k': k, 'of': 16} for k in range(16)]
+    out.append({'what': 'near_return'})
     return out
 
 
@@ -225,9 +227,77 @@ def check_program(prog, rot, styles, acc):
     acc.seen('kinds:' + kinds)
 
 
+TAME = [1.0, -2.0, 3.5, 0.25, -0.75, 0.1, 2.3, -6.7, 0.6, -3.3, 0.2, 2.75, -0.3, 0.7, 5.5, -1.25, 0.9]
+RUN_LENGTHS_QUICK = [2, 3, 31, 32, 33, 63, 64, 65, 127, 128, 129, 200]
+RUN_LENGTHS_THOROUGH = sorted(set(RUN_LENGTHS_QUICK + list(range(2, 70)) + [255, 256, 257, 500, 1000]))
+
+
+def long_run_programs(tier):
+    """one command letter repeated N times (written once, the other N-1 implied, in the letter-dropping
+    styles) for N bracketing the powers of two - a vectorised fast path for long runs has a threshold -
+    then a closepath and a relative lineto that shows where the pen ended up"""
+    for N in (RUN_LENGTHS_QUICK if tier == 'quick' else RUN_LENGTHS_THOROUGH):
+        for letter in 'LlHhVvCcSsQqTtAa':
+            for first in 'Mm':
+                for tail in ((), ('z', 'l')):
+                    if tier == 'quick' and (letter.upper() in 'CSQTA' and N > 65 or first == 'm' and N not in (64, 65)):
+                        continue
+                    prog = [(first, [TAME[3], TAME[5]])]
+                    k = 0
+                    for i in range(N):
+                        n = refsvg.NARGS[letter.upper()]
+                        if letter.upper() == 'A':
+                            args = [2.0 + (i % 3), 1.5, 30.0 * (i % 4), i % 2, (i // 2) % 2, TAME[(k) % len(TAME)] + 0.01 * i, TAME[(k + 1) % len(TAME)] - 0.02 * i]
+                            k += 2
+                        else:
+                            args = [TAME[(k + j) % len(TAME)] + (0.001 * i if j == n - 1 else 0.0) for j in range(n)]
+                            k += n
+                        prog.append((letter, args))
+                    for t in tail:
+                        prog.append((t, [] if t == 'z' else [1.0, 2.0]))
+                    yield prog
+
+
+def near_return_programs():
+    """relative moves whose float sum comes back to the start of the subpath only up to rounding
+    (0.1 + 0.2 - 0.3 ...): the closepath still draws its (tiny) line, the pen is at the start afterwards"""
+    sets = [[(0.1, 0.0), (0.2, 0.0), (-0.3, 0.0)], [(0.1, 0.7), (0.2, -0.4), (-0.3, -0.3)], [(0.0, 0.1), (0.0, 0.2), (0.0, -0.3)],
+            [(1e-3, 0.3), (0.7, 0.6), (-0.701, -0.9)]]
+    for vs in sets:
+        for perm in itertools.permutations(vs):
+            for start in ((0.1, 0.1), (0.0, 0.0), (1.0e3, -0.7)):
+                for closer in 'zZ':
+                    for tail in ((), (('l', [1.0, 2.0]),), (('m', [1.0, 2.0]), ('l', [3.0, 4.0])), (('t', [1.0, 1.0]),)):
+                        for first in 'Mm':
+                            prog = [(first, list(start))]
+                            for v in perm:
+                                if v[1] == 0.0:
+                                    prog.append(('h', [v[0]]))
+                                elif v[0] == 0.0:
+                                    prog.append(('v', [v[1]]))
+                                else:
+                                    prog.append(('l', list(v)))
+                            prog.append((closer, []))
+                            prog += [(l, list(a)) for l, a in tail]
+                            yield prog
+                            # the same points spelled with 'l' only
+                            yield [(first, list(start))] + [('l', list(v)) for v in perm] + [(closer, [])] + [(l, list(a)) for l, a in tail]
+
+
 def run_shard(desc, tier, seed):
     acc = core.Acc()
     tp = tier_params(tier, seed)
+    if desc.get('what') == 'long_runs':
+        for i, prog in enumerate(long_run_programs(tier)):
+            if i % desc['of'] == desc['k']:
+                check_program(prog, 0, ['spaced', 'implicit', 'minimal', 'comma'], acc)
+                acc.seen('long_run')
+        return acc
+    if desc.get('what') == 'near_return':
+        for prog in near_return_programs():
+            check_program(prog, 0, ['spaced', 'implicit', 'minimal'], acc)
+            acc.seen('near_return')
+        return acc
     rot, first, l1 = desc['rot'], desc['first'], desc['l1']
     edges = set()
     for K in range(0, tp['K_spaced'] + 1):
@@ -249,13 +319,15 @@ def run_shard(desc, tier, seed):
 
 
 def expected_classes(tier):
-    return ['style:%s' % s for s in refsvg.STYLES] + ['kinds:ACLQ', 'kinds:L', 'kinds:']
+    return ['style:%s' % s for s in refsvg.STYLES] + ['kinds:ACLQ', 'kinds:L', 'kinds:', 'long_run', 'near_return']
 
 
 def space(tier, seed):
     tp = tier_params(tier, seed)
     return {'letters': LETTERS, 'K_all_styles': tp['K_styles'], 'K_spaced_only': tp['K_spaced'],
             'argument_rotations': tp['rots'], 'styles': refsvg.STYLES,
+            'long_runs': {'letters': 'LlHhVvCcSsQqTtAa', 'run_lengths': RUN_LENGTHS_QUICK if tier == 'quick' else RUN_LENGTHS_THOROUGH, 'styles': ['spaced', 'implicit', 'minimal', 'comma']},
+            'near_return_programs': len(list(near_return_programs())),
             'programs_per_rotation': sum(2 * 20 ** k for k in range(tp['K_spaced'] + 1)),
             'abstract_state_graph': 'states = 10 command classes (letters upper-cased); transitions = ordered pairs of consecutive commands; all 2 + 10*10 are exercised (see abstract_edges)'}
 
